@@ -410,8 +410,18 @@ def dict_get(eng, d, key, default=KeyError):
             if not eng.branch(present):
                 return default
     if d.vkind == "intlist":
+        if getattr(d, "by_value", False):
+            return by_value_entry(d, kz)
         return DictListRef(d, key)
     return Sym(z3.Select(d.val, kz), d.vkind)
+
+
+def by_value_entry(d, kz):
+    """frozen snapshot of the int list stored under key kz in a by-value dict (see PDict.promote)"""
+    p = PList()
+    p.items, p.cols, p.kinds, p.tup, p.n = None, [z3.Select(d.val, kz)], ["int"], False, z3.Select(d.lens, kz)
+    p.name, p.frozen = d.name + "_entry", True
+    return p
 
 
 def dict_set_default(eng, d, key):
@@ -464,6 +474,19 @@ def setitem(eng, base, idx, val):
         kz = to_z3(idx, "int")
         base.dom = z3.Store(base.dom, kz, z3.BoolVal(True))
         if base.vkind == "intlist":
+            if getattr(base, "by_value", False) and isinstance(val, PList) and not val.tup and (val.items is None and val.kinds == ["int"] or val.items is not None and all(kind_of(x) in ("int", "bool") for x in val.items)):
+                if val.items is None:
+                    content, ln = val.cols[0], zint(val.n)
+                else:
+                    content = z3.K(z3.IntSort(), z3.IntVal(0))
+                    for j, x in enumerate(val.items):
+                        content = z3.Store(content, j, to_z3(x, "int"))
+                    ln = z3.IntVal(len(val.items))
+                base.val = z3.Store(base.val, kz, content)
+                base.lens = z3.Store(base.lens, kz, ln)
+                val.frozen = True  # the stored object is aliased by the dict entry from now on: no write may follow
+                eng.assumptions.add("dict-model: int lists are stored in / read from this dict by value; the stored list and the entries handed out are frozen (any later write through either is a failed frame obligation), so value and reference semantics agree")
+                return
             raise Unsupported("store of a list into a symbolic dict")
         base.val = z3.Store(base.val, kz, to_z3(val, base.vkind))
         return
